@@ -402,7 +402,7 @@ fn check(id: &str, tier: &str) -> i32
         {
             rep.assume("commands are deterministic functions of their declared sources (mini-shell cat); distinct writes carry distinct mtimes (strict clock)");
             let mut plans = vec![];
-            for (sc, q, t) in vec![(scen::s1_chain(), 6, 9), (scen::s3_multi(), 6, 9), (scen::s2_diamond(), 5, 8), (scen::s4_twins(), 5, 8), (scen::s5_variants(), 6, 9), (scen::s8_failures(), 5, 8), (scen::s10_bundle(), 4, 6), (scen::s11_three(), 5, 7)]
+            for (sc, q, t) in vec![(scen::s1_chain(), 6, 9), (scen::s3_multi(), 6, 9), (scen::s2_diamond(), 5, 8), (scen::s4_twins(), 5, 8), (scen::s5_variants(), 6, 9), (scen::s8_failures(), 5, 8), (scen::s10_bundle(), 6, 8), (scen::s11_three(), 5, 7)]
             {
                 let mut p = plan(sc, tiered(tier, q, t));
                 p.secs = secs;
@@ -414,7 +414,7 @@ fn check(id: &str, tier: &str) -> i32
         {
             rep.assume("as C01; the must-not-run obligation is asserted only when the harness's own record shows an earlier successful execution on identical sources, the needed contents were in the cache before the build, and no cache content is needed by two targets at once");
             let mut plans = vec![];
-            for (sc, q, t) in vec![(scen::s1_chain(), 6, 9), (scen::s3_multi(), 6, 8), (scen::s2_diamond(), 5, 8), (scen::s4_twins(), 6, 8), (scen::s5_variants(), 6, 9), (scen::s11_three(), 5, 7), (scen::s10_bundle(), 4, 6)]
+            for (sc, q, t) in vec![(scen::s1_chain(), 6, 9), (scen::s3_multi(), 6, 8), (scen::s2_diamond(), 5, 8), (scen::s4_twins(), 6, 8), (scen::s5_variants(), 6, 9), (scen::s11_three(), 5, 7), (scen::s10_bundle(), 6, 8), (scen::s8_failures(), 5, 7), (scen::s12_multiline_failure(), 4, 6)]
             {
                 let mut p = plan(sc, tiered(tier, q, t));
                 p.secs = secs;
@@ -475,6 +475,12 @@ fn check(id: &str, tier: &str) -> i32
                 p.secs = secs;
                 plans.push(p);
             }
+            for m in (if thorough { vec![0u8, 1, 2, 3, 4, 5, 6, 7] } else { vec![3u8, 5, 6, 7] })
+            {
+                let mut p = plan(scen::s7_undeclared3(m), tiered(tier, 5, 7));
+                p.secs = secs;
+                plans.push(p);
+            }
             run_hist_plans(&mut rep, id, plans);
         },
         "C18" =>
@@ -499,7 +505,7 @@ fn check(id: &str, tier: &str) -> i32
         {
             rep.assume("Built = the rule's command is in this build's command log; Recovered = a rename from .ruler/cache onto the target; Up-to-date = no mutation touched the target");
             let mut plans = vec![];
-            for (sc, q, t) in vec![(scen::s1_chain(), 6, 9), (scen::s3_multi(), 6, 8), (scen::s4_twins(), 6, 8), (scen::s6_exec(), 6, 8), (scen::s8_failures(), 6, 8), (scen::s11_three(), 6, 8), (scen::s10_bundle(), 4, 6)]
+            for (sc, q, t) in vec![(scen::s1_chain(), 6, 9), (scen::s3_multi(), 6, 8), (scen::s4_twins(), 6, 8), (scen::s6_exec(), 6, 8), (scen::s8_failures(), 6, 8), (scen::s11_three(), 6, 8), (scen::s10_bundle(), 6, 8)]
             {
                 let mut p = plan(sc, tiered(tier, q, t));
                 p.secs = secs;
